@@ -69,6 +69,7 @@ impl C13 {
             ("array-index-sweep", arr_cells * 3),
             ("string-index-sweep", str_cells * 3),
             ("index-and-value-types", 7 * 3),
+            ("string-measure-consistency", if ctx.flavour == Flavour::Miri { 40 } else { 4 * 6 * 8 * 3 }),
             ("directed", directed().len() as u64),
             ("random-op-sequences", rnd),
         ])
@@ -308,6 +309,54 @@ fn random_ops(r: &mut Rng) -> Vec<Stmt> {
     p
 }
 
+impl C13 {
+    /// What `s[i] = <text of 0, 2 or 3 characters>` does is not documented (DESIGN 4.3(7)) — but whatever the string
+    /// is afterwards, `lengte`, indexing from the front and from the back, and every alias must describe THAT string:
+    /// measured by character, consistently. The oracle needs no model of the assignment: it compares the string the
+    /// program returns with what the program says about it.
+    fn measure_consistency(&self, ctx: &Ctx, i: u64, st: &mut Stats) {
+        let i = if ctx.flavour == Flavour::Miri { (i * 13 + ctx.seed) % (4 * 6 * 8 * 3) } else { i };
+        let base = ["abc", "aébé", "💖x", "z"][(i % 4) as usize];
+        let repl = ["", "xy", "xyz", "éé", "💖ß€", "ab"][((i / 4) % 6) as usize];
+        let idx_v = [0i64, 1, 2, 3, -1, -2, -3, -4][((i / 24) % 8) as usize];
+        let form = (i / 192) % 3;
+        let setup = match form {
+            0 => format!("stel s = \"{}\"; stel t = s; s[{}] = \"{}\"", base, idx_v, repl),
+            1 => format!("stel s = \"{}\"; stel t = s; functie zet(x) {{ x[{}] = \"{}\"; 0 }}; zet(s)", base, idx_v, repl),
+            _ => format!("stel doos = [\"{}\"]; stel s = doos[0]; stel t = s; s[{}] = \"{}\"; s[{}] = \"{}\"", base, idx_v, repl, idx_v, repl),
+        };
+        let text = format!("{}; [s, lengte(s), s[0], s[-1], s[lengte(s) - 1], t, lengte(t)]", setup);
+        let o = crate::obs::eval_observed(&text, &ObsCfg::plain(10_000));
+        st.evaluations += 1;
+        st.count("programs:string-measure-consistency");
+        match &o.outcome {
+            crate::obs::Outcome::Value(crate::val::Val::Array(v)) if v.len() == 7 => {
+                use crate::val::Val;
+                let s = match &v[0] {
+                    Val::Str(s) => s.clone(),
+                    _ => return,
+                };
+                st.distinct_hash(hash_str(&text));
+                let n = s.chars().count() as i64;
+                let first = s.chars().next().map(|c| c.to_string()).unwrap_or_default();
+                let last = s.chars().last().map(|c| c.to_string()).unwrap_or_default();
+                let ok = matches!(&v[1], Val::Int(k) if *k == n) && matches!(&v[2], Val::Str(f) if *f == first) && matches!(&v[3], Val::Str(l) if *l == last) && matches!(&v[4], Val::Str(l) if *l == last);
+                if !ok {
+                    st.violation("string-measure-consistency:lengte-or-index", format!("the string is {:?} ({} characters) but lengte / s[0] / s[-1] / s[lengte(s) - 1] say {}", s, n, crate::val::render_val(&Val::Array(v[1..5].to_vec()))), &text);
+                }
+                // the alias names the same object or an independent copy (4.3(7)): either way it is measured by character
+                if let (Val::Str(t), Val::Int(k)) = (&v[5], &v[6]) {
+                    if t.chars().count() as i64 != *k {
+                        st.violation("string-measure-consistency:alias", format!("the alias is {:?} but its lengte is {}", t, k), &text);
+                    }
+                }
+            }
+            // an error (index out of range on the changed string, or the assignment refused) decides nothing
+            _ => st.count("string-measure-consistency:no-value"),
+        }
+    }
+}
+
 impl Check for C13 {
     fn id(&self) -> &'static str {
         "C13"
@@ -322,6 +371,13 @@ impl Check for C13 {
         to_text(&self.program(ctx, idx, None).1)
     }
     fn run_case(&mut self, ctx: &Ctx, idx: u64, st: &mut Stats) {
+        {
+            let (_, name, i) = self.fams(ctx).locate(idx);
+            if name == "string-measure-consistency" {
+                self.measure_consistency(ctx, i, st);
+                return;
+            }
+        }
         let (fam, prog) = self.program(ctx, idx, Some(st));
         let text = to_text(&prog);
         let cfg = match ctx.flavour {
